@@ -606,7 +606,7 @@ func RunNumberExact(w *World, r *Report) {
 		exact := false
 		for _, g := range guardsOf(b) {
 			bo, ok := g.cond.(*ssa.BinOp)
-			if !ok || bo.Op != token.EQL || !g.then {
+			if !ok || !((bo.Op == token.EQL && g.then) || (bo.Op == token.NEQ && !g.then)) {
 				continue
 			}
 			for _, pr := range [][2]ssa.Value{{bo.X, bo.Y}, {bo.Y, bo.X}} {
